@@ -37,6 +37,8 @@ class Item:
 class Person:
     """Plain (identity-hashed) object carrying a guid, as in the user guide."""
 
+    kind = "human"  # an ordinary attribute (what `node.kind` shows on a plain tree with forward_attrs=True)
+
     def __init__(self, guid, name):
         self.guid = guid
         self.name = name
@@ -69,7 +71,7 @@ class GuidTypedTree(TypedTree):
         return hash(data)
 
 
-FLAVOURS = ["str", "int", "tuple", "dc", "dictwrap", "obj_cb", "obj_sub", "dict_explicit"]
+FLAVOURS = ["str", "int", "tuple", "dc", "dictwrap", "obj_cb", "obj_sub", "dict_explicit", "obj_fwd"]
 
 
 class Flavour:
@@ -87,6 +89,10 @@ class Flavour:
         if self.name == "obj_cb":
             cls = TypedTree if typed else Tree
             return cls(name, calc_data_id=_cb_guid)
+        if self.name == "obj_fwd":
+            # attributes of the data objects are readable through the nodes; the objects have an attribute `kind`
+            cls = TypedTree if typed else Tree
+            return cls(name, calc_data_id=_cb_guid, forward_attrs=True)
         if self.name == "obj_sub":
             return (GuidTypedTree if typed else GuidTree)(name)
         return (TypedTree if typed else Tree)(name)
@@ -108,7 +114,7 @@ class Flavour:
             # documented to compare (and hash) by the identity of the wrapped dict, not by its content
             d = shared._dict if shared is not None else {"name": label[:1]}
             return DictWrapper(d)
-        if n in ("obj_cb", "obj_sub"):
+        if n in ("obj_cb", "obj_sub", "obj_fwd"):
             return Person("g-" + label, label)
         if n == "dict_explicit":
             return {"name": label}
@@ -135,7 +141,7 @@ class Flavour:
     def auto_id(self, label: str, data):
         """data_id the documentation promises when no explicit id is given."""
         n = self.name
-        if n in ("obj_cb", "obj_sub"):
+        if n in ("obj_cb", "obj_sub", "obj_fwd"):
             return "g-" + label
         if n == "dict_explicit":
             return "x-" + label  # always passed explicitly
